@@ -1,10 +1,10 @@
 #!/bin/bash
 # tools/seedtest.sh <property id> <patch file> [tier]   — applies a seeded change to /repo, runs the check, reverts
-id=$1; patch=$2; tier=${3:-quick}
+id=$1; patch=$(readlink -f $2); tier=${3:-quick}
 cd /repo || exit 9
 [ -z "$(git status --porcelain -- src)" ] || { echo "repo/src dirty"; exit 9; }
 if ! git apply "$patch" 2>/dev/null; then
-  patch -p1 -F3 -s < "$patch" || { echo "patch does not apply"; git checkout -- .; exit 9; }
+  patch -p1 -F3 -s < "$patch" || { echo "patch does not apply"; git checkout -- .; git clean -fdq src; exit 9; }
   find . -name '*.orig' -delete
 fi
 cd /verif && ./vcheck $id --tier $tier > /tmp/seedtest_$id.log 2>&1; rc=$?
